@@ -45,6 +45,7 @@ RUN = "fun c => match c with (fs, libs, mp) => observe fs libs mp %d%%nat end" %
 
 LIBS = {"@JSON": ["解析JSON", "生成JSON"], "@文件": ["读取文件", "写入文件", "读取目录"]}
 MODCH = "甲乙丙丁戊己庚辛壬癸"
+CTOR = "新建"
 
 
 # ------------------------------------------------------------------ rendering a case into .zn files
@@ -84,10 +85,20 @@ def render_source(src):
         else:
             out.append("定义%s：" % d["cls"])
             for m, body in d["methods"]:
+                if m == CTOR:
+                    continue
                 out.append("    如何%s？" % m)
                 for s in body:
                     out += render_stmt(s, 2)
                 out.append("")
+            # the custom constructor is a definition of its own, right after the type (its body is kept in the
+            # model's method table under the reserved name 新建)
+            for m, body in d["methods"]:
+                if m == CTOR:
+                    out.append("如何新建%s？" % d["cls"])
+                    for s in body:
+                        out += render_stmt(s, 1)
+                    out.append("")
     for s in src["body"]:
         out += render_stmt(s, 0)
     return "\n".join(out) + "\n"
@@ -310,7 +321,16 @@ def random_case(rng, kinds):
             if own and rng.random() < 0.7:
                 mb.append(["call", own[-1]])
                 feature.append("type-method-home-call")
-            defs.append({"cls": c, "methods": [["报告", mb]]})
+            methods = [["报告", mb]]
+            if rng.random() < 0.5:
+                # a custom constructor that uses its home module (marks show that it ran; the call must resolve there,
+                # whatever module creates the object and whatever that module imported or defined itself)
+                cb = [["mark", mk.new()]]
+                if own and rng.random() < 0.8:
+                    cb.append(["call", own[-1]])      # the last method never creates objects: no recursion through the constructor
+                    feature.append("constructor-home-call")
+                methods.append([CTOR, cb])
+            defs.append({"cls": c, "methods": methods})
         rng.shuffle(defs) if rng.random() < 0.3 else None
         body = [["mark", mk.new()]]
         for _ in range(rng.randrange(0, 4)):
